@@ -8,6 +8,7 @@ import (
 	"os"
 	"sort"
 	"strconv"
+	"strings"
 	"time"
 )
 
@@ -37,10 +38,21 @@ func main() {
 		repo := fs.String("repo", "/repo", "repository root")
 		verif := fs.String("verif", "/verif", "verification root (evidence, known findings)")
 		fs.Parse(os.Args[2:])
-		p := registry[*id]
-		if p == nil {
-			fmt.Fprintf(os.Stderr, "tmsa: unknown property %q\n", *id)
-			os.Exit(2)
+		ids := strings.Split(*id, ",")
+		if *id == "ALL" {
+			ids = nil
+			for k := range registry {
+				if !strings.HasPrefix(k, "X") {
+					ids = append(ids, k)
+				}
+			}
+			sort.Strings(ids)
+		}
+		for _, one := range ids {
+			if registry[one] == nil {
+				fmt.Fprintf(os.Stderr, "tmsa: unknown property %q\n", one)
+				os.Exit(2)
+			}
 		}
 		seed, _ := strconv.Atoi(os.Getenv("VERIF_SEED"))
 		t0 := time.Now()
@@ -48,49 +60,66 @@ func main() {
 		if err != nil {
 			// A tree that does not load cannot be analysed; this is a failed check, not a pass.
 			fmt.Fprintln(os.Stderr, "tmsa: load failed:", err)
-			c = &Ctx{Repo: *repo, Tier: *tier}
-			c.add("LOAD", "load", 0, Undecided, true, "the repository did not load/type-check: %v", err)
-			os.Exit(finish(c, p, *verif, seed, t0, nil))
-		}
-		func() {
-			defer func() {
-				if r := recover(); r != nil {
-					c.add("PANIC", "checker", 0, Undecided, true, "checker panicked: %v", r)
-					if os.Getenv("TMSA_DEBUG") != "" {
-						panic(r)
-					}
-				}
-			}()
-			p.Run(c)
-		}()
-		var extra map[string]any
-		rc := 0
-		if *tier == "thorough" {
-			mres := runMutants(*repo, *verif, p.ID)
-			det, app := 0, 0
-			for _, m := range mres {
-				if m.Applied {
-					app++
-					if m.Detected {
-						det++
-					} else {
-						fmt.Printf("tmsa: checker regression: breaking change %s is no longer reported by %s\n", m.Name, p.ID)
-						rc = 2
-					}
+			worst := 0
+			for _, one := range ids {
+				c = &Ctx{Repo: *repo, Tier: *tier}
+				c.add("LOAD", "load", 0, Undecided, true, "the repository did not load/type-check: %v", err)
+				if rc := finish(c, registry[one], *verif, seed, t0, nil); rc > worst {
+					worst = rc
 				}
 			}
-			extra = map[string]any{"mutants": mres, "mutants_total": len(mres), "mutants_applied": app, "mutants_detected": det,
-				"mutants_rule": "each listed breaking change (reverted fix, hand-written mutant, or independently seeded regression) is applied to a scratch copy of /repo and the property's rules are re-run on the copy; all applied ones must be reported"}
-			fmt.Printf("thorough: %d breaking changes applied to scratch copies, %d reported\n", app, det)
+			os.Exit(worst)
 		}
-		frc := finish(c, p, *verif, seed, t0, extra)
-		if frc == 0 && rc != 0 {
-			frc = rc
+		worst := 0
+		for _, one := range ids {
+			p := registry[one]
+			c.obs, c.notes = nil, nil
+			t1 := time.Now()
+			if len(ids) == 1 {
+				t1 = t0
+			}
+			func() {
+				defer func() {
+					if r := recover(); r != nil {
+						c.add("PANIC", "checker", 0, Undecided, true, "checker panicked: %v", r)
+						if os.Getenv("TMSA_DEBUG") != "" {
+							panic(r)
+						}
+					}
+				}()
+				p.Run(c)
+			}()
+			var extra map[string]any
+			rc := 0
+			if *tier == "thorough" {
+				mres := runMutants(*repo, *verif, p.ID)
+				det, app := 0, 0
+				for _, m := range mres {
+					if m.Applied {
+						app++
+						if m.Detected {
+							det++
+						} else {
+							fmt.Printf("tmsa: checker regression: breaking change %s is no longer reported by %s\n", m.Name, p.ID)
+							rc = 2
+						}
+					}
+				}
+				extra = map[string]any{"mutants": mres, "mutants_total": len(mres), "mutants_applied": app, "mutants_detected": det,
+					"mutants_rule": "each listed breaking change (reverted fix, hand-written mutant, or independently seeded regression) is applied to a scratch copy of /repo and the property's rules are re-run on the copy; all applied ones must be reported"}
+				fmt.Printf("thorough: %d breaking changes applied to scratch copies, %d reported\n", app, det)
+			}
+			frc := finish(c, p, *verif, seed, t1, extra)
+			if frc == 0 && rc != 0 {
+				frc = rc
+			}
+			if frc > worst {
+				worst = frc
+			}
 		}
-		os.Exit(frc)
+		os.Exit(worst)
 	default:
 		fmt.Fprintln(os.Stderr, "tmsa: unknown command", os.Args[1])
 		os.Exit(2)
 	}
 }
-
